@@ -34,7 +34,13 @@ import (
 	"github.com/bluenviron/mediamtx/internal/errordumper"
 	"github.com/bluenviron/mediamtx/internal/externalcmd"
 	"github.com/bluenviron/mediamtx/internal/logger"
+	"github.com/bluenviron/mediamtx/internal/verifutil"
 )
+
+func init() {
+	verifutil.Register("c20_rtsp_session", VerifRTSPSession)
+	verifutil.Register("c20_rtsp_conn", VerifRTSPConn)
+}
 
 const verifNoCmd = "verif_no_such_command_zz"
 
